@@ -427,6 +427,169 @@ def o6(h, st):
     h.done()
 
 
+# ---------------------------------------------------------------------------------------------------------------------
+# P1  the term loops of the frequency routes for an operator with ANY number of terms (loop cut; simulate and the one-term estimators replaced by their contracts)
+
+from tverif.engine import stub
+from tverif.interp import GhostIterable, GSeq
+from tverif.ring import Poly
+
+
+class _EstimatorLoop(GhostIterable):
+    def __init__(self, h, what, term, coef, sim, prep, n, init, desired, est_calls):
+        self.h, self.what, self.term, self.coef, self.sim, self.prep, self.n, self.init_sv, self.desired, self.est_calls = h, what, term, coef, sim, prep, n, init, desired, est_calls
+        self.var = "expectation_value" if what == "expectation" else "variance"
+        self.managed = (self.var, "self")       # "self" is the opaque backend (its call log grows); the accumulator is the loop-carried state
+        self.temps = ("_",)                     # second component of simulate()'s result: written, never read
+        self.iterations = 0
+
+    def element(self):
+        self.iterations += 1
+        return (self.term, self.coef)
+
+    def init(self, interp, env):
+        self.h.check_close("on loop entry: accumulator is 0", env.lookup(self.var), 0)
+        self.calls_before = len(self.sim.calls)
+
+    def havoc(self, interp, env):
+        env.assign(self.var, self.acc0)          # arbitrary value accumulated over the terms seen so far (declared by the contract)
+
+    def step(self, interp, env, broke):
+        h, term = self.h, self.term
+        acc = env.lookup(self.var)
+        new_calls = self.sim.calls[self.calls_before:]
+        if not term and self.what == "expectation":
+            h.check_close("identity term: its coefficient is added", acc, self.acc0 + self.coef)
+            h.check("identity term: nothing simulated", new_calls == [] and self.est_calls == [])
+            return
+        h.check("one simulation per term", len(new_calls) == 1 and new_calls[0]["rsv"] is False)
+        h.check("one one-term estimate per term", len(self.est_calls) == 1)
+        if len(new_calls) != 1 or len(self.est_calls) != 1:
+            return
+        call = new_calls[0]
+        from tangelo.linq.helpers.circuits.measurement_basis import measurement_basis_gates
+        want = [(g.name, g.target, g.control, g.parameter) for g in self.prep] + [(g.name, g.target, g.control, g.parameter) for g in measurement_basis_gates(term)]
+        got = [(g.name, g.target, g.control, g.parameter) for g in call["circuit"]._gates]
+        h.check("simulated circuit == preparation (or nothing, when the prepared state is passed on) followed by the basis rotation of the term", got == want, detail=f"{got} vs {want}")
+        h.check("simulated on the register of the preparation", call["circuit"].width == self.n)
+        h.check("initial statevector and desired mid-circuit results forwarded", call["init"] is self.init_sv and call["desired"] == self.desired)
+        a, k = self.est_calls[0]
+        h.check("the one-term estimator receives the term and the frequencies of that simulation", a[-2] == term and a[-1] is call["freqs"])
+        est = self.est_value
+        h.check_close("accumulator += coef * E_term" if self.what == "expectation" else "accumulator += coef^2 * Var_term", acc,
+                      self.acc0 + (self.coef * est if self.what == "expectation" else self.coef * self.coef * est))
+
+
+def p1_structures(tier):
+    sts = []
+    for what in ("expectation", "variance"):
+        for prep in ("pure", "mixed", "empty"):
+            for sv in (True, False):
+                for noise in (False, True):
+                    for term in ([], [[0, "X"]], [[0, "Z"], [1, "Y"]], [[0, "Z"], [1, "Z"], [2, "Z"]]):
+                        for init in ((False, True) if sv else (False,)):
+                            sts.append({"what": what, "prep": prep, "sv": sv, "noise": noise, "term": term, "init": init})
+    return sts
+
+
+@contract("C02", "P1.frequency_routes.term_loop.any_number_of_terms", level="P", structures=p1_structures,
+          targets=[(BK, "Backend._get_expectation_value_from_frequencies"), (BK, "Backend._get_variance_from_frequencies")])
+def p1(h, st):
+    """for an operator with ANY number of terms (simulate, the one-term estimators opaque - contracts O2 / C01): the accumulator starts at 0 and one generic iteration on a generic
+    (term, coef) - every real coef, an arbitrary value accumulated so far - simulates exactly the preparation followed by the term's basis rotation (the rotation alone on the
+    prepared state when the statevector shortcut applies) with the caller's / prepared initial statevector and the desired mid-circuit results, hands THAT histogram with the term
+    to the one-term estimator and adds coef * E_term (coef^2 * Var_term); an identity term adds coef without simulating; a term longer than the register raises ValueError.
+    By induction the result is sum_t c_t E_t (sum_t c_t^2 Var_t) for operators of any size"""
+    if not h.symbolic:
+        h.check("native: covered by O4 / O5 / O6", True)
+        h.done()
+        return
+    from tangelo.linq.target.backend import Backend
+    n = 2
+    shots, noisy, sv_avail = 100, st["noise"], st["sv"]
+
+    class Opaque(Backend):
+        def __init__(self):
+            super().__init__(n_shots=shots, noise_model=({"X": ("pauli", [0.1, 0.0, 0.0])} if noisy else None))
+            self.calls = []
+
+        def simulate_circuit(self, *a, **k):
+            raise AssertionError("opaque backend")
+
+        def simulate(self, source_circuit, return_statevector=False, initial_statevector=None, desired_meas_result=None, save_mid_circuit_meas=False):
+            rec = {"circuit": source_circuit, "rsv": return_statevector, "init": initial_statevector, "desired": desired_meas_result, "freqs": {"<opaque histogram>": len(self.calls)}}
+            self.calls.append(rec)
+            rec["token"] = ("statevector-of-call", len(self.calls)) if return_statevector else None
+            return rec["freqs"], rec["token"]
+
+        @staticmethod
+        def backend_info():
+            return {"statevector_available": sv_avail, "statevector_order": "lsq_first", "noisy_simulation": True, "n_qubits_max": 20}
+
+    sim = Opaque()
+    gates = build_prep(PREPS2[st["prep"]])
+    mixed = any(g.name == "MEASURE" for g in gates)
+    c = mk_circuit(gates, n)
+    term = tuple((i, l) for i, l in st["term"])
+    coef = h.real("coef")
+    est_calls = []
+    E = h.real("E_term")
+    what = st["what"]
+    stub(h, BK, "Backend.get_expectation_value_from_frequencies_oneterm", lambda a, k: E, log=est_calls)
+    stub(h, BK, "Backend.get_variance_from_frequencies_oneterm", lambda a, k: E, log=est_calls)
+    init = ("caller-statevector",) if st["init"] else None
+    desired = "1" if mixed else None
+    shortcut = sv_avail and not mixed and not noisy
+    proto = _EstimatorLoop(h, what, term, coef, sim, [] if shortcut else list(c._gates), n, None, desired, est_calls)
+    proto.est_value = E
+    proto.acc0 = h.real("acc")
+
+    class _Terms:
+        def items(self_):
+            return proto
+
+    class _Op:
+        terms = _Terms()
+
+        def __repr__(self_):
+            return "<operator with any number of terms>"
+    fn = "Backend._get_expectation_value_from_frequencies" if what == "expectation" else "Backend._get_variance_from_frequencies"
+    box = {}
+
+    def run():
+        h.numeric_pi()
+        box["v"] = h.call(BK, fn, sim, _Op(), c, init, desired)
+    # the initial statevector handed to the per-term simulations: the prepared state (shortcut) or the caller's
+    pre_calls = sim.calls
+    e = None
+    try:
+        # set the expected initial statevector lazily: on the shortcut route it is the token returned by the preparation call
+        class _Lazy:
+            pass
+        orig_init = proto.init
+
+        def init_hook(interp, env):
+            orig_init(interp, env)
+            if shortcut:
+                ok = len(sim.calls) == 1 and sim.calls[0]["rsv"] is True and sim.calls[0]["circuit"] is c and sim.calls[0]["init"] is init and sim.calls[0]["desired"] == desired
+                h.check("statevector shortcut: the state is prepared once, from the caller's initial statevector, with the desired results", ok)
+                proto.init_sv = sim.calls[0]["token"] if sim.calls else None
+            else:
+                h.check("no preparation call on the mixed-state / noisy / statevector-less routes", sim.calls == [])
+                proto.init_sv = init
+        proto.init = init_hook
+        e = h.raises(run, ValueError)
+    finally:
+        pass
+    if len(term) > n:
+        h.check("a term longer than the register is refused", e is not None)
+        h.done()
+        return
+    h.check("no exception", e is None, detail=str(e))
+    h.check("the loop body was entered once for the generic term", proto.iterations == 1)
+    h.done()
+
+
 PROPERTY = {
     "level": "other",
     "explanation": "One-term estimators (parity-weighted sums, variance) are proved for every frequency assignment, the basis rotations exactly "
